@@ -24,7 +24,7 @@ from lib import vcore
 
 HEADER = ("From Coq Require Import List ZArith Bool.\nImport ListNotations.\n"
           "From QV Require Import Base.Mat Base.Zi C03.ModelSamples C03.ModelProbs C03.ModelCollapse "
-          "C03.ModelResult C03.Check.\n")
+          "C03.ModelResult C03.ModelCircuit C03.Check.\n")
 
 LIMIT = 2 ** 50
 
@@ -941,6 +941,199 @@ def part_repeated(run, rng, be, count):
     elif "repeated_execution_views_consistent" not in run.refuted:
         run.refuted.append("repeated_execution_views_consistent")
 
+
+# ------------------------------------------------------------------ part G: Circuit.add bookkeeping, gates after measurements
+def gate_xop(kind, qs):
+    """(real gate, Coq xop literal, text)"""
+    from qibo import gates
+    if kind in ("X", "Y", "Z"):
+        return getattr(gates, kind)(qs[0]), f"XG (@nil nat, [{qs[0]}]%nat, {GATE_ZI[kind]})", f"{kind}({qs[0]})"
+    if kind == "SWAP":
+        return gates.SWAP(*qs), f"XG (@nil nat, [{qs[0]}; {qs[1]}]%nat, {GATE_ZI['SWAP']})", f"SWAP({qs[0]},{qs[1]})"
+    base = "X" if kind == "CNOT" else "Z"
+    return getattr(gates, kind)(*qs), f"XG ([{qs[0]}]%nat, [{qs[1]}]%nat, {GATE_ZI[base]})", f"{kind}({qs[0]},{qs[1]})"
+
+
+def bookkeeping_script(crng):
+    """[('G', kind, qubits) | ('M', qubits, name_code_or_None)]: basis-state preparation, 2-4
+    registers, 1-3 later gates overlapping random subsets of them (often two registers at once),
+    optional re-measurement; at least one final-state measurement remains"""
+    n = crng.randint(2, 4)
+    script = [("G", "X", [q]) for q in range(n) if crng.random() < 0.5]
+    nreg = crng.randint(2, min(4, n))
+    perm = crng.sample(range(n), n)
+    m = crng.randint(nreg, n)
+    cuts = sorted(crng.sample(range(1, m), nreg - 1))
+    groups, prev = [], 0
+    for c in cuts + [m]:
+        groups.append(perm[prev:c])
+        prev = c
+    active, ncustom = [], 0
+    for g in groups:
+        name = None
+        if crng.random() < 0.6:
+            name, ncustom = ncustom, ncustom + 1
+        script.append(("M", list(g), name))
+        active.append(list(g))
+
+    def later_gate():
+        nonlocal active
+        two = [a for a in active]
+        if n >= 2 and len(two) >= 2 and crng.random() < 0.65:
+            a, b = crng.sample(two, 2)
+            qs = [crng.choice(a), crng.choice(b)]
+            kind = crng.choice(["CNOT", "CZ", "SWAP"])
+        elif n >= 2 and crng.random() < 0.5:
+            qs = crng.sample(range(n), 2)
+            kind = crng.choice(["CNOT", "CZ", "SWAP"])
+        else:
+            qs = [crng.randrange(n)]
+            kind = crng.choice(["X", "Z", "Y"])
+        script.append(("G", kind, qs))
+        active = [a for a in active if not set(a) & set(qs)]
+
+    for _ in range(crng.randint(1, 3)):
+        later_gate()
+    for _ in range(crng.randint(0, 2)):
+        free = [q for q in range(n) if not any(q in a for a in active)]
+        if free and crng.random() < 0.8:
+            qs = crng.sample(free, crng.randint(1, len(free)))
+            name = None
+            if crng.random() < 0.5:
+                name, ncustom = ncustom, ncustom + 1
+            script.append(("M", qs, name))
+            active.append(qs)
+            if crng.random() < 0.35:
+                later_gate()
+    if not active:
+        free = list(range(n))
+        script.append(("M", crng.sample(free, crng.randint(1, n)), None))
+    return n, script
+
+
+def name_code(name, given):
+    if given is not None:
+        return f"(inr {given}%nat)"
+    m_ = re.match(r"register(\d+)$", name or "")
+    return f"(inl {m_.group(1)}%nat)" if m_ else "(inr 999%nat)"
+
+
+def bookkeeping_case(run, be, i):
+    from qibo import Circuit, gates
+    crng = random.Random(f"{run.seed}:bookkeeping:{i}")
+    n, script = bookkeeping_script(crng)
+    nshots = crng.randint(1, 3)
+    info = {"part": "bookkeeping", "case": i, "n": n, "nshots": nshots,
+            "script": [(f"{s[1]}({','.join(map(str, s[2]))})" if s[0] == "G" else
+                        f"M({','.join(map(str, s[1]))}" + (f", register_name='u{s[2]}')" if s[2] is not None else ")")) for s in script]}
+    c = Circuit(n)
+    xops, handles, given = [], [], []
+    try:
+        for s in script:
+            if s[0] == "G":
+                g, lit, _ = gate_xop(s[1], s[2])
+                c.add(g)
+                xops.append(lit)
+            else:
+                handles.append(c.add(gates.M(*s[1], register_name=(None if s[2] is None else f"u{s[2]}"))))
+                given.append(s[2])
+                xops.append(f"XM {nat_list(s[1])} {'None' if s[2] is None else f'(Some {s[2]}%nat)'} false")
+        mgates = [g for g in c.queue if isinstance(g, gates.M)]
+        impl_ms = "[" + "; ".join(f"mkmrec {nat_list(g.target_qubits)} {name_code(g.register_name, given[k])} {b2s(g.collapse)}"
+                                  for k, g in enumerate(mgates)) + "]"
+        impl_meas = [next(k for k, g in enumerate(mgates) if g is mm) for mm in c.measurements]
+        info["implementation"] = {"collapse_flags": [bool(g.collapse) for g in mgates], "register_names": [g.register_name for g in mgates],
+                                  "measurements": impl_meas, "has_collapse": bool(c.has_collapse)}
+        impl_circ = f"(mkcirc {impl_ms} {nat_list(impl_meas)} {b2s(c.has_collapse)})"
+        xs = "[" + "; ".join(xops) + "]"
+        items = [("struct", f"match build_circ {xs} with Some c => circ_eqb c {impl_circ} | None => false end")]
+        # execution: every draw of the implementation is recorded
+        draws = []
+        orig = be.sample_shots
+
+        def shots(probabilities, ns):
+            out = orig(probabilities, ns)
+            draws.append([int(v) for v in np.asarray(out).tolist()])
+            return out
+        be.sample_shots = shots
+        try:
+            be.set_seed(crng.randrange(2 ** 31))
+            r = c(nshots=nshots)
+        finally:
+            del be.sample_shots
+        coll = [k for k, g in enumerate(mgates) if g.collapse]
+        if c.has_collapse:
+            per = len(coll) + 1
+            shot_draws = [[d[0] for d in draws[s * per:(s + 1) * per]] for s in range(nshots)] if len(draws) == per * nshots else None
+        else:
+            shot_draws = [[draws[0][s]] for s in range(nshots)] if len(draws) == 1 else None
+        if shot_draws is None:
+            info["draws"] = draws
+            return info, items, "unexpected number of sampling calls"
+        reg = r.samples(binary=True, registers=True)
+        psi0 = "[" + "; ".join(["zi1"] + ["zi0"] * (2 ** n - 1)) + "]"
+        info["per_shot"] = []
+        for s in range(nshots):
+            rec = [(k, [int(b) for b in np.asarray(handles[k]._samples[s]).tolist()]) for k in coll]
+            fin = [[int(b) for b in np.asarray(reg[mm.register_name])[s].tolist()] for mm in c.measurements]
+            info["per_shot"].append({"draws": shot_draws[s], "recorded": rec, "final_registers": fin})
+            rec_lit = "[" + "; ".join(f"({k}%nat, {bits_lit(b)})" for k, b in rec) + "]" if rec else "(@nil (nat * list bool))"
+            items.append((f"shot{s}", f"forallb (fun b => b) (shot_check {n}%nat {xs} {psi0} {nat_list(shot_draws[s])} {rec_lit} {bits_list(fin)})"))
+        return info, items, None
+    except Exception as e:  # noqa
+        info["raised"] = repr(e)[:300]
+        return info, [], "raised"
+
+
+def part_bookkeeping(run, rng, be, count, only=None):
+    all_items, meta = [], []
+    ok = True
+    for i in (range(count) if only is None else only):
+        info, items, problem = bookkeeping_case(run, be, i)
+        ngates_after = sum(1 for s in info["script"] if not s.startswith("M("))
+        run.case({"bookkeeping": info["script"], "nshots": info["nshots"]}, True)
+        if i < 2:
+            run.sample({k: v for k, v in info.items() if k != "per_shot"})
+        if problem:
+            ok = False
+            run.find(f"bookkeeping:{'raised' if problem == 'raised' else 'execution'}",
+                     "building or executing a circuit with gates after measurements failed: " + str(info.get("raised", problem)), info)
+        for label, term in items:
+            all_items.append((f"bk{i}:{label}", term))
+            meta.append((f"bk{i}:{label}", label, info))
+    res = {}
+    for ci in range(0, len(all_items), 300):
+        part, _ = run.coq_bools(f"bookkeeping_{ci // 300}.v", HEADER, all_items[ci:ci + 300], timeout=900)
+        if part is None:
+            run.oblige("correspondence:circuit_add_bookkeeping", False, "correspondence")
+            run.find("bookkeeping:coq-failed", "generated file did not compile", {}, concrete=False)
+            return
+        res.update(part)
+    for label, kind, info in meta:
+        if not res[label]:
+            ok = False
+            if kind == "struct":
+                run.find("bookkeeping:structure", "after Circuit.add the collapse flags / register names / circuit.measurements / has_collapse "
+                         "differ from the specification (every earlier measurement touched by a later gate becomes collapsing and leaves circuit.measurements)", info)
+            else:
+                run.find("bookkeeping:samples", "a register does not report the outcome at the time of its measurement (per-shot comparison with the exact model)", info)
+    # malformed stream: a register name that already exists among the final-state measurements
+    from qibo import Circuit, gates
+    try:
+        c = Circuit(2)
+        c.add(gates.M(0, register_name="a"))
+        c.add(gates.M(1, register_name="a"))
+        rejected = False
+    except KeyError:
+        rejected = True
+    mres, _ = run.coq_bools("bookkeeping_malformed.v", HEADER,
+                            [("dup", "match build_circ [XM [0]%nat (Some 0%nat) false; XM [1]%nat (Some 0%nat) false] with None => true | Some _ => false end")])
+    run.case({"bookkeeping_malformed": "duplicate register name"}, False)
+    if mres is None or mres["dup"] != rejected:
+        ok = False
+        run.find("bookkeeping:duplicate_name", "model and implementation disagree on rejecting a duplicate register name", {"implementation_rejects": rejected})
+    run.oblige("correspondence:circuit_add_bookkeeping", ok, "correspondence")
+
 # ------------------------------------------------------------------ main
 RULE = ("probabilities: random n<=5, random duplicate-free ordered qubit lists (biased to unsorted), Gaussian-integer states with exact moduli / "
         "integer density matrices, through the backend function and through Circuit execution; non-trivial = list differs from range(n) and "
@@ -950,13 +1143,16 @@ RULE = ("probabilities: random n<=5, random duplicate-free ordered qubit lists (
         "collapse: M(*qubits, collapse=True) on unsorted/sorted lists mid-circuit followed by X/Y/Z/CNOT/CZ/SWAP and a final measurement, "
         "every shot one case; direct collapse_state/collapse_density_matrix calls on integer data.  repeated: state-vector circuits with a "
         "collapsing measurement (shot-by-shot execution), the eight sample/frequency views of the MeasurementOutcomes judged by the Coq "
-        "specification explainsb against its own samples.")
+        "specification explainsb against its own samples.  bookkeeping: X-prepared basis states, 2-4 measurement registers (default and custom "
+        "names), then 1-3 later gates (X/Y/Z/CNOT/CZ/SWAP, 65% touching two registers at once), optional re-measurement of freed qubits and "
+        "further gates; collapse flags / names / circuit.measurements / has_collapse compared structurally with the model of Circuit.add, and "
+        "every shot's recorded and final register outcomes compared with the exact per-shot model.")
 
 
 def budgets(tier):
     if tier == "thorough":
-        return {"probs": 480, "conv": 200, "views": 900, "collapse": 300, "direct": 240, "symbols": 60, "repeated": 120}
-    return {"probs": 150, "conv": 60, "views": 160, "collapse": 70, "direct": 60, "symbols": 20, "repeated": 30}
+        return {"probs": 480, "conv": 200, "views": 900, "collapse": 300, "direct": 240, "symbols": 60, "repeated": 120, "bookkeeping": 600}
+    return {"probs": 150, "conv": 60, "views": 160, "collapse": 70, "direct": 60, "symbols": 20, "repeated": 30, "bookkeeping": 120}
 
 
 def static_obligations(run, theory):
@@ -1007,6 +1203,7 @@ def main(run):
     part_collapse_direct(run, rng, be, b["direct"])
     part_symbols(run, rng, be, b["symbols"])
     part_repeated(run, rng, be, b["repeated"])
+    part_bookkeeping(run, rng, be, b["bookkeeping"])
     return run.finish(rule=RULE)
 
 
@@ -1026,6 +1223,8 @@ def replay(run, data):
         part_collapse_single(run, be, cases)
     elif part == "symbols":
         part_symbols_range(run, be, [i])
+    elif part == "bookkeeping":
+        part_bookkeeping(run, None, be, 0, only=[i])
     elif part == "repeated":
         part_repeated(run, None, be, i + 1)
         run.findings = [f for f in run.findings if f.key == data.get("key") and f.replay.get("case") == i]
